@@ -4,7 +4,7 @@
 //! the last action was Reduce); actions are ApplyArgs, ApplyInputs, ApplyFees, ApplyCompilerOps (enabled
 //! iff no operand of a compiler op still contains an unresolved parameter - decided by a generic walk of
 //! the serialised value, not by `is_constant`) and Reduce. Every transition calls the implementation. The
-//! graph contains all 24 stage orders x all reduce placements. All terminal states must coincide.
+//! graph contains all stage orders (inputs at once or in two separate calls) x all reduce placements. All terminal states must coincide.
 
 use super::c06::{arg_for, sample_utxo};
 use super::c13;
@@ -27,13 +27,19 @@ pub struct C07;
 #[derive(Debug, Clone, Copy, PartialEq, Eq, Hash, PartialOrd, Ord)]
 enum Act {
     Args,
+    /// every reported query at once
     Inputs,
+    /// the first / second half of the reported queries (by name) in a call of its own: inputs may be supplied one
+    /// at a time, and one query may mention another input
+    InputsA,
+    InputsB,
     Fees,
     CompilerOps,
     Reduce,
 }
 
-const STAGES: [Act; 4] = [Act::Args, Act::Inputs, Act::Fees, Act::CompilerOps];
+const STAGES: [Act; 6] = [Act::Args, Act::Inputs, Act::InputsA, Act::InputsB, Act::Fees, Act::CompilerOps];
+const ALL_APPLIED: u8 = 1 | 2 | 4 | 8 | 16;
 
 #[derive(Clone)]
 struct St {
@@ -46,7 +52,9 @@ struct St {
 fn bit(a: Act) -> u8 {
     match a {
         Act::Args => 1,
-        Act::Inputs => 2,
+        Act::Inputs => 2 | 16,
+        Act::InputsA => 2,
+        Act::InputsB => 16,
         Act::Fees => 4,
         Act::CompilerOps => 8,
         Act::Reduce => 0,
@@ -86,6 +94,8 @@ fn err_class(e: &str) -> String {
 struct Env {
     args: ArgMap,
     inputs: BTreeMap<String, std::collections::HashSet<Utxo>>,
+    inputs_a: BTreeMap<String, std::collections::HashSet<Utxo>>,
+    inputs_b: BTreeMap<String, std::collections::HashSet<Utxo>>,
     fee: u64,
 }
 
@@ -93,6 +103,8 @@ fn step(tx: tir::Tx, a: Act, env: &Env) -> Result<tir::Tx, String> {
     let r = panics::catch(|| match a {
         Act::Args => tx.apply_args(&env.args).map_err(|e| e.to_string()),
         Act::Inputs => tx.apply_inputs(&env.inputs).map_err(|e| e.to_string()),
+        Act::InputsA => tx.apply_inputs(&env.inputs_a).map_err(|e| e.to_string()),
+        Act::InputsB => tx.apply_inputs(&env.inputs_b).map_err(|e| e.to_string()),
         Act::Fees => tx.apply_fees(env.fee).map_err(|e| e.to_string()),
         Act::CompilerOps => {
             let mut c = compiler(&PP::default());
@@ -108,16 +120,22 @@ fn step(tx: tir::Tx, a: Act, env: &Env) -> Result<tir::Tx, String> {
 
 fn run_template(tx: &tir::Tx, label: &str, o: &mut Outcome, detail: &Value) {
     let params = find_params(tx);
+    let all_inputs: BTreeMap<String, std::collections::HashSet<Utxo>> = find_queries(tx)
+        .keys()
+        .enumerate()
+        .map(|(i, k)| (k.clone(), [sample_utxo(0x30 + i as u8)].into_iter().collect()))
+        .collect();
+    // the split puts the later names first: a query that mentions another input is then served before it
+    let half = all_inputs.len() / 2;
     let env = Env {
         args: params.iter().map(|(k, ty)| (k.clone(), arg_for(ty))).collect(),
-        inputs: find_queries(tx)
-            .keys()
-            .enumerate()
-            .map(|(i, k)| (k.clone(), [sample_utxo(0x30 + i as u8)].into_iter().collect()))
-            .collect(),
+        inputs_a: all_inputs.iter().skip(half).map(|(k, v)| (k.clone(), v.clone())).collect(),
+        inputs_b: all_inputs.iter().take(half).map(|(k, v)| (k.clone(), v.clone())).collect(),
+        inputs: all_inputs,
         fee: 180_000,
     };
-    let init = St { tx: Ok(tx.clone()), applied: 0, last_reduce: false, path: vec![] };
+    // with fewer than two queries there is nothing to split: the second half counts as applied
+    let init = St { tx: Ok(tx.clone()), applied: if env.inputs.len() < 2 { 16 } else { 0 }, last_reduce: false, path: vec![] };
     let key_of = |s: &St| -> u64 {
         let body = match &s.tx {
             Ok(t) => canon_tir(t).to_string(),
@@ -164,7 +182,7 @@ fn run_template(tx: &tir::Tx, label: &str, o: &mut Outcome, detail: &Value) {
                 ),
             }
         }
-        if s.applied == 15 && s.last_reduce {
+        if s.applied == ALL_APPLIED && s.last_reduce {
             terminals.push((canon_tir(cur).to_string(), s.path.clone(), true));
             continue;
         }
@@ -251,6 +269,11 @@ fn builtin_bases() -> Vec<(String, String)> {
             ),
         ));
     }
+    // one input's query mentions another input (and the fee): the inputs can be supplied in either order
+    v.push((
+        "query-mentions-another-input".into(),
+        "party A;\nparty B;\ntx t(q: Int) {\n    input anchor {\n        from: A,\n        min_amount: Ada(q),\n    }\n    input backing {\n        from: B,\n        min_amount: anchor + fees,\n    }\n    input zlast {\n        from: B,\n        min_amount: backing + anchor,\n    }\n    output {\n        to: A,\n        amount: anchor + backing + zlast - fees,\n    }\n}\n".into(),
+    ));
     v.push((
         "script-address-and-min-utxo".into(),
         "party A;\npolicy P = 0xABCDEF1234ABCDEF1234ABCDEF1234ABCDEF1234ABCDEF1234ABCDEF1234;\ntype D {\n    n: Int,\n}\ntx t(q: Int) {\n    input src {\n        from: P,\n        datum_is: D,\n        min_amount: fees + min_utxo(locked),\n        redeemer: D { n: q, },\n    }\n    output locked {\n        to: P,\n        amount: min_utxo(locked) + Ada(q),\n        datum: D { n: src.n + q, },\n    }\n    output {\n        to: A,\n        amount: src - fees - min_utxo(locked) - Ada(q),\n    }\n}\n".into(),
